@@ -340,6 +340,30 @@ func runG1(e *env) {
 				cur = e.openSession(elec, cfg.FIBAck)
 				continue
 			}
+			if st.A == 2 && !cur.dead && !cur.closed {
+				// the primary raises its OWN id and stays primary: what is held for it stays its own and is
+				// answered, on its stream, when it resolves
+				elec[1]++
+				cur.mc.Send(&spb.ModifyRequest{ElectionId: uint128(elec)})
+				simrt.AwaitQuiescence("reannounce")
+				rs, _ := e.drain(cur)
+				var got *spb.Uint128
+				var rest []*spb.ModifyResponse
+				for _, r := range rs {
+					if r.GetElectionId() != nil {
+						got = r.GetElectionId()
+					} else {
+						rest = append(rest, r)
+					}
+				}
+				if !cur.dead && (got == nil || got.High != elec[0] || got.Low != elec[1]) {
+					e.report("C05", "reported-id-not-max", "election response to the primary raising its own id", fmt.Sprintf("announced %v, server reported %v", elec, got), false)
+				}
+				cur.elec, e.maxElec = elec, elec
+				e.processResults(cur, rest)
+				e.probe("primary raised its own election id")
+				continue
+			}
 			if st.A == 1 && !cur.dead {
 				cur.mc.CloseSend()
 				cur.closed = true
